@@ -275,6 +275,7 @@ package kex
 //@   ensures @done result == nil ==> s.priv == nil
 //@ func kex.OAEPSession.SetParameter
 //@   params s xB ownerKey
+//@   local err = UnOp#12 | UnOp#14 | UnOp#4 | UnOp#5 | addr:Alloc#1 | extract1:call:crypto/rsa.DecryptOAEP#1 | extract2:call:kex.oaepSymmetricKey#1
 //@   props C14 C10(sweep)
 //@   sweep bounds,panic,make,nilmem,div
 //@   requires @suite suiteok(s.Cipher)
